@@ -152,43 +152,7 @@ func checkC01Rest(c *core.Ctx) {
 	c.Counts["decode_error_call_sites"] = n13
 
 	r16 := c.Rule("R1.6", "D", "progress: a decoder that hands data[n:] to the next decoder has n >= 1 proven (or at least not refuted)")
-	nPA := 0
-	var paFns []*ssa.Function
-	for fn := range roots.DecReach {
-		if fn.Pkg != nil && len(fn.Blocks) > 0 && !strings.HasSuffix(p.Pos(fn.Pos()), "_test.go") {
-			paFns = append(paFns, fn)
-		}
-	}
-	sort.Slice(paFns, func(i, j int) bool { return core.FnKey(paFns[i]) < core.FnKey(paFns[j]) })
-	for _, fn := range paFns {
-		for _, prm := range fn.Params {
-			if !core.IsByteSlice(prm.Type()) {
-				continue
-			}
-			seen := 0
-			for _, pa := range guard.PayloadAdvances(fn, prm) {
-				nPA++
-				seen++
-				key := core.FnKey(fn) + "/payload-advance"
-				if seen > 1 {
-					key += "#" + string(rune('0'+seen))
-				}
-				switch {
-				case pa.LB >= 1:
-					r16.OK(key, p.InstrPos(pa.At), "payload starts at an offset >= 1")
-				case pa.Taint && pa.LB <= 0 && pa.LB > -1<<30 && !pa.AltArith && !pa.Loop:
-					why := "no guard establishes n >= 1"
-					if pa.LBNoWrap >= 1 {
-						why = "n is computed in a narrow unsigned type and wraps to 0 for large field values, and the dominating guards test the wrapped value itself"
-					}
-					r16.Violate(key, p.InstrPos(pa.At), "the bytes handed to the next decoder start at data[n:] with n taken from the packet and possibly 0 ("+why+"): the same bytes are decoded again and again — eager decoding recurses until the stack overflows (not recoverable), lazy decoding never finishes", nil)
-				default:
-					r16.Undecided(key, p.InstrPos(pa.At), "n >= 1 not proven")
-				}
-			}
-		}
-	}
-	c.Counts["payload_advance_sites"] = nPA
+	payloadProgress(c, r16)
 
 	r15 := c.Rule("R1.5", "D", "renderers are total on what decoders publish: no unguarded dereference of a pointer field decoders may leave nil")
 	unset := nilDerefScan(c, r15)
@@ -404,4 +368,47 @@ func nilDerefScan(c *core.Ctx, r *core.Rule) map[string]bool {
 	}
 	c.Counts["pointer_field_derefs_in_accessors"] = n
 	return unset
+}
+
+// payloadProgress: shared by R1.6 and R19.6.
+func payloadProgress(c *core.Ctx, r16 *core.Rule) {
+	p := c.P
+	roots := p.Roots()
+	nPA := 0
+	var paFns []*ssa.Function
+	for fn := range roots.DecReach {
+		if fn.Pkg != nil && len(fn.Blocks) > 0 && !strings.HasSuffix(p.Pos(fn.Pos()), "_test.go") {
+			paFns = append(paFns, fn)
+		}
+	}
+	sort.Slice(paFns, func(i, j int) bool { return core.FnKey(paFns[i]) < core.FnKey(paFns[j]) })
+	for _, fn := range paFns {
+		for _, prm := range fn.Params {
+			if !core.IsByteSlice(prm.Type()) {
+				continue
+			}
+			seen := 0
+			for _, pa := range guard.PayloadAdvances(fn, prm) {
+				nPA++
+				seen++
+				key := core.FnKey(fn) + "/payload-advance"
+				if seen > 1 {
+					key += "#" + string(rune('0'+seen))
+				}
+				switch {
+				case pa.LB >= 1:
+					r16.OK(key, p.InstrPos(pa.At), "payload starts at an offset >= 1")
+				case pa.Taint && pa.LB <= 0 && pa.LB > -1<<30 && !pa.AltArith && !pa.Loop:
+					why := "no guard establishes n >= 1"
+					if pa.LBNoWrap >= 1 {
+						why = "n is computed in a narrow unsigned type and wraps to 0 for large field values, and the dominating guards test the wrapped value itself"
+					}
+					r16.Violate(key, p.InstrPos(pa.At), "the bytes handed to the next decoder start at data[n:] with n taken from the packet and possibly 0 ("+why+"): the same bytes are decoded again and again — eager decoding recurses until the stack overflows (not recoverable), lazy decoding never finishes", nil)
+				default:
+					r16.Undecided(key, p.InstrPos(pa.At), "n >= 1 not proven")
+				}
+			}
+		}
+	}
+	c.Counts["payload_advance_sites"] = nPA
 }
